@@ -264,6 +264,88 @@ def gen_mutants(repo: str) -> List[Variant]:
                 return True
             if rel.endswith('tools.py'):
                 expr_variants('SEPARATOR', is_nl, to_space, lambda n: "line separator '\\n' replaced by ' '", limit=6)
+        if rel.startswith('pydbml/renderer/') and not rel.endswith('__init__.py'):
+            def replace_nth(pred, repl, ordinal):
+                def fn(t):
+                    c = 0
+                    for parent in ast.walk(t):
+                        for fld, val in ast.iter_fields(parent):
+                            vals = val if isinstance(val, list) else [val]
+                            for j, v in enumerate(vals):
+                                if isinstance(v, ast.AST) and pred(v):
+                                    c += 1
+                                    if c == ordinal:
+                                        nv = repl(v)
+                                        if isinstance(val, list):
+                                            val[j] = nv
+                                        else:
+                                            setattr(parent, fld, nv)
+                                        return True
+                    return False
+                return fn
+            WRAPPERS = ('prepare_text_for_dbml', 'prepare_text_for_sql', 'get_full_name_for_sql', 'get_full_name_for_dbml', 'name_to_dbml', 'string_to_dbml',
+                        'quote_string', 'escape_braces', 'comment_to_sql', 'comment_to_dbml', 'note_option_to_dbml', 'doublequote_string')
+
+            def is_wrapper(n):
+                return isinstance(n, ast.Call) and isinstance(n.func, ast.Name) and n.func.id in WRAPPERS and len(n.args) == 1 and not n.keywords
+            k = 0
+            for n in exprs:
+                if is_wrapper(n) and k < 40:
+                    k += 1
+                    new = edit(src, replace_nth(is_wrapper, lambda v: v.args[0], k))
+                    if new:
+                        out.append(Variant(f'R_DROP_WRAPPER:{rel}#{k}', rel, new, 'mutant', f'`{ast.unparse(n)[:60]}` replaced by its argument'))
+
+            def is_test(n):
+                return (isinstance(n, ast.If) and not (len(n.body) == 1 and isinstance(n.body[0], ast.Raise))) or isinstance(n, ast.IfExp)
+
+            def flip(n):
+                n.test = ast.UnaryOp(op=ast.Not(), operand=n.test)
+                return True
+            expr_variants('R_FLIP_IF', is_test, flip, lambda n: f'condition `{ast.unparse(n.test)[:60]}` negated', limit=40)
+            SIDES = {'col1': 'col2', 'col2': 'col1', 'table1': 'table2', 'table2': 'table1'}
+
+            def is_side(n):
+                return isinstance(n, ast.Attribute) and n.attr in SIDES and isinstance(n.ctx, ast.Load)
+
+            def swap_side(n):
+                n.attr = SIDES[n.attr]
+                return True
+            expr_variants('R_SWAP_SIDE', is_side, swap_side, lambda n: f'`{ast.unparse(n)}` replaced by the other side', limit=40)
+
+            def is_kwtext(n):
+                return isinstance(n, ast.Constant) and isinstance(n.value, str) and sum(ch.isalpha() for ch in n.value) >= 2 and '\n' not in n.value
+
+            def misspell(n):
+                v = n.value
+                i = next(i for i, ch in enumerate(v) if ch.isalpha())
+                j = next((j for j in range(i + 1, len(v)) if v[j].isalpha() and v[j] != v[i]), None)
+                if j is None:
+                    return False
+                n.value = v[:i] + v[j] + v[i + 1:j] + v[i] + v[j + 1:]
+                return True
+            expr_variants('R_KW_TEXT', is_kwtext, misspell, lambda n: f'literal text {n.value[:30]!r} misspelt', limit=40)
+            k = 0
+            for q, st, body, i in s.stmts:
+                is_emit = (isinstance(st, ast.Expr) and isinstance(st.value, ast.Call) and isinstance(st.value.func, ast.Attribute) and st.value.func.attr in ('append', 'extend')) \
+                    or (isinstance(st, ast.AugAssign) and isinstance(st.op, ast.Add))
+                if is_emit and k < 40:
+                    k += 1
+                    key = (st.lineno, st.col_offset)
+
+                    def del_emit(t, key=key):
+                        for n in ast.walk(t):
+                            for fld in ('body', 'orelse'):
+                                b = getattr(n, fld, None)
+                                if isinstance(b, list):
+                                    for j, x in enumerate(b):
+                                        if isinstance(x, (ast.Expr, ast.AugAssign)) and (x.lineno, x.col_offset) == key:
+                                            b[j] = ast.Pass()
+                                            return True
+                        return False
+                    new = edit(src, del_emit)
+                    if new:
+                        out.append(Variant(f'R_DEL_EMIT:{rel}:{q}#{k}', rel, new, 'mutant', f'emission deleted: `{ast.unparse(st)[:60]}` in {q}'))
         if rel.endswith('parser/parser.py'):
             def is_copy(n):
                 return isinstance(n, ast.Call) and isinstance(n.func, ast.Attribute) and n.func.attr == 'copy' and not n.args
